@@ -36,7 +36,35 @@ def _a_method(self, *a):
     return None
 
 
+REAL_MODE = ["inherit"]   # "inherit": real base classes;  "abc": unrelated ABCs related only through ABC.register
+
+
+def realize_abc(rel, n, extra_ns=None):
+    """the same relation realised WITHOUT inheritance: every class is an (instantiable) abc.ABC and Ki is made a
+    virtual subclass of Kj by Kj.register(Ki).  ovld must reach the same answers: it may consult issubclass /
+    isinstance only, never __mro__ or __bases__."""
+    import abc
+
+    cls = []
+    for i in range(n):
+        ns = {"_idx": i}
+        if extra_ns:
+            ns.update(extra_ns(i))
+        cls.append(abc.ABCMeta(f"K{i}", (), ns))
+    for i in range(n):
+        for j in range(n):
+            if i != j and rel[i][j]:
+                cls[j].register(cls[i])
+    return cls
+
+
 def realize(rel, n, extra_ns=None):
+    if REAL_MODE[0] == "abc":
+        return realize_abc(rel, n, extra_ns)
+    return _realize_inherit(rel, n, extra_ns)
+
+
+def _realize_inherit(rel, n, extra_ns=None):
     """real classes C0..Cn-1 whose issubclass relation equals rel (a partial order).
     Classes are created in order of increasing number of superclasses; direct bases are the
     minimal strict superclasses, most specific first.  (Checked in round 0 on all 219 / 4231
